@@ -56,6 +56,10 @@ def run(model: RepoModel, rep, tier: str):
     rep.rule("C17.R4", "out_data starts as in_data; in_data becomes out_data exactly on the processed-and-not-blocked path", 2)
     rep.rule("C17.R5", "flag algebra: flags are distinct powers of two; sync_event_return propagates each flag iff returned, SUCCESS iff "
                        "the handler returned non-zero, and leaves the value unchanged for None", 5)
+    from ..generic3 import check_enum_distinct
+    rep.rule("C17.R7", "event kinds are distinct: no two names of EVENT_KIND (or EventKind) share a number, so the handler lists -- a dict keyed by the "
+                       "kind -- are one per event", 1)
+    check_enum_distinct(model, rep, "C17.R7", "config/constants.py", ["EVENT_KIND", "EventKind"])
     rep.rule("C17.R6", "every default registration names a known event and a resolvable one-parameter handler whose returns are flags or None", 15)
 
     # ------------------------------------------------------------------ R1
